@@ -137,17 +137,27 @@ def recAlloc (s : Core) (x : RAlloc) : Core × Bool :=
   | none => (s, false)
   | some a => if s.recAllocOK a x then (s.recAllocDo a x, true) else (s, false)
 
-/-- partition.UpdateAllocation for a key the application knows as an outstanding ask and the shim now reports as bound
-    (same resource): the branch "transitioning from requested to allocated" — Application.AllocateAsk (pending moves),
-    Queue.IncAllocatedResource without limit, Node.AddAllocation forced with the application's own object,
-    Application.AddAllocation.  The ledger effect of `Core.schedAlloc` without its capacity and quota checks. -/
-def recBind (s : Core) (x : RAlloc) : Core × Bool :=
+/-- the resource-change block of partition.UpdateAllocation for an OUTSTANDING ask (Application.UpdateAllocationResources,
+    branch "update pending resources"): the ask takes the new size, application and queue pending move by the delta.
+    Nothing is booked on any node: a pending ask has none. -/
+def resizePending (s : Core) (a : CApp) (i : CItem) (res : Res) : Core :=
+  let delta := prune (subX res i.res)
+  if isZero (some delta) || isZero (some res) then s else
+  let s1 := updApp s a.id (fun a => { a with
+    items := a.items.map (fun y => if y.key == i.key then { y with res := res } else y),
+    pending := prune (addX a.pending delta) })
+  updQueues s1 (pathChain s a.queue) (fun q => { q with pending := addX q.pending delta })
+
+/-- the branch "transitioning from requested to allocated" of partition.UpdateAllocation for the size the application
+    holds: Application.AllocateAsk (pending moves), Queue.IncAllocatedResource without limit, Node.AddAllocation forced
+    with the application's own object, Application.AddAllocation.  The ledger effect of `Core.schedAlloc` without its
+    capacity and quota checks. -/
+def bindHeld (s : Core) (x : RAlloc) : Core × Bool :=
   match s.findApp x.app, s.findNode x.node with
   | some a, some _ =>
     match a.items.find? (fun i => i.key == x.key && i.inReq && !i.allocated) with
     | none => (s, false)
     | some i =>
-      if isZero (some x.res) || !(strictlyGreaterThanZero (some x.res)) then (s, false) else
       let s1 := updNode s x.node (fun n => { n with
         allocs := n.allocs ++ [{ key := x.key, app := x.app, res := i.res, foreign := false, ph := i.ph }],
         allocated := addX n.allocated i.res, available := prune (subX n.available i.res) })
@@ -165,6 +175,19 @@ def recBind (s : Core) (x : RAlloc) : Core × Bool :=
           { a with items := items, pending := pending, allocated := addX a.allocated i.res, state := st,
                    log := if st != a.state then a.log ++ [st] else a.log })
       ({ s3 with allocations := s3.allocations + 1, phAllocations := if i.ph then s3.phAllocations + 1 else s3.phAllocations }, true)
+  | _, _ => (s, false)
+
+/-- partition.UpdateAllocation for a key the application knows as an outstanding ask and the shim now reports as bound,
+    possibly with another size: first the resource change of the pending ask (`resizePending`), then the transition with
+    the new size (`bindHeld`). -/
+def recBind (s : Core) (x : RAlloc) : Core × Bool :=
+  match s.findApp x.app, s.findNode x.node with
+  | some a, some _ =>
+    match a.items.find? (fun i => i.key == x.key && i.inReq && !i.allocated) with
+    | none => (s, false)
+    | some i =>
+      if isZero (some x.res) || !(strictlyGreaterThanZero (some x.res)) then (s, false)
+      else (s.resizePending a i x.res).bindHeld x
   | _, _ => (s, false)
 
 /-- partition.UpdateAllocation for an allocation reported with its node: the recovery branch for a key the application
